@@ -1,8 +1,9 @@
 (* Properties_C17.v -- C17: matrix adapters preserve the operator; input row order does
-   not matter.  Statements only; proofs: AdaptersProofs.v, AdaptersProofs2.v.
+   not matter.  Statements only; proofs: AdaptersProofs.v, AdaptersProofs2.v, AdaptersProofs3.v.
    "any S": for every Scalar record (hence floats); "ring": every commutative ring. *)
 From Coq Require Import Permutation.
 From Amgcl Require Import Scalar QcInst Vec Crs Kernels KernelsProofs MatOps Adapters AdaptersProofs AdaptersProofs2.
+From Amgcl Require Import Relax Ilu Amg AdaptersProofs3 Own.
 Local Open Scope S_scope.
 
 (* --- A1: adapters are views (any S) --- *)
@@ -167,3 +168,100 @@ Proof.
   cbv zeta. split; [|repeat split; reflexivity].
   change (Permutation ([2] ++ [0; 1])%nat ([0; 1] ++ [2])%nat). apply Permutation_app_comm.
 Qed.
+
+(* ================================================================ round 2 *)
+
+(* --- A3, positive chain: entry points that sort (amg; as_preconditioner since /repo 71caa28;
+   cpr and cpr_drs since f6202e0).  C17_unsorted_ilu0_scan_refuted above documents WHY the sort is
+   needed; these say that with it the listing order is immaterial. --- *)
+
+(* what a sorting entry point builds from any listing = what a non-sorting entry point builds from the
+   sorted matrix *)
+Theorem C17_sorting_entry_is_sorted_input (S : Scalar) (Y : Type) (build : crs S -> Y) (A B : adapter S) :
+  rows_perm (to_crs A) (to_crs B) -> distinct_cols (to_crs A) ->
+  sorting_entry build A = plain_entry build (crs_view (sort_rows (to_crs B))).
+Proof. exact (sorting_entry_is_sorted_input build A B). Qed.
+Print Assumptions C17_sorting_entry_is_sorted_input.
+
+(* amg: the model's entry point Amg.amg_init (copy, sort_rows, do_init) on the generic copy *)
+Theorem C17_amg_entry_order_independent (S : Scalar) ce dc ml (cop : crs S -> crs S -> crs S -> crs S) ts
+  (A B : adapter S) :
+  rows_perm (to_crs A) (to_crs B) -> distinct_cols (to_crs A) ->
+  amg_init ce dc ml cop ts (to_crs A) = amg_init ce dc ml cop ts (to_crs B).
+Proof. exact (amg_entry_order_independent ce dc ml cop ts A B). Qed.
+Print Assumptions C17_amg_entry_order_independent.
+
+(* relaxation::as_preconditioner: any smoother set-up *)
+Theorem C17_asp_entry_order_independent (S : Scalar) (Y : Type) (setup : crs S -> Y) (A B : adapter S) :
+  rows_perm (to_crs A) (to_crs B) -> distinct_cols (to_crs A) ->
+  asp_entry setup A = asp_entry setup B.
+Proof. exact (asp_entry_order_independent setup A B). Qed.
+Print Assumptions C17_asp_entry_order_independent.
+
+(* ... in particular the order-sensitive one: as_preconditioner<ilu0> on ANY listing is the ILU(0)
+   factorisation (Ilu.ilu0, the model tied by C06) of the sorted matrix *)
+Theorem C17_asp_ilu0_order_independent (S : Scalar) (junk : vec S) (A B : adapter S) :
+  rows_perm (to_crs A) (to_crs B) -> distinct_cols (to_crs A) ->
+  asp_entry (fun M => ilu0 M junk) A = ilu0 (sort_rows (to_crs B)) junk.
+Proof. exact (asp_ilu0_order_independent junk A B). Qed.
+Print Assumptions C17_asp_ilu0_order_independent.
+
+(* cpr, cpr_drs: whatever first_scalar_pass / init compute from the sorted copy *)
+Theorem C17_cpr_entry_order_independent (S : Scalar) (Y : Type) (init : crs S -> Y) (A B : adapter S) :
+  rows_perm (to_crs A) (to_crs B) -> distinct_cols (to_crs A) ->
+  cpr_entry init A = cpr_entry init B /\ cpr_drs_entry init A = cpr_drs_entry init B.
+Proof. exact (cpr_entry_order_independent init A B). Qed.
+Print Assumptions C17_cpr_entry_order_independent.
+
+(* classes that forward the user matrix to an inner class (make_solver, deflated_solver,
+   runtime::preconditioner, the sub-solvers of schur_pressure_correction) inherit the inner class's
+   independence *)
+Theorem C17_forwarding_entry_order_independent (S : Scalar) (Y Z : Type) (inner : adapter S -> Y) (wrap : Y -> Z)
+  (A B : adapter S) :
+  inner A = inner B -> forwarding_entry inner wrap A = forwarding_entry inner wrap B.
+Proof. exact (forwarding_entry_order_independent inner wrap A B). Qed.
+Print Assumptions C17_forwarding_entry_order_independent.
+
+(* the generator's shuffling is the relation quantified over *)
+Theorem C17_shuffled_listing_rows_perm (S : Scalar) (M M' : crs S) :
+  ncols M = ncols M' -> Forall2 (fun r r' => Permutation r r') (rows M) (rows M') ->
+  rows_perm (to_crs (crs_view M)) (to_crs (crs_view M')).
+Proof. exact (shuffled_listing_rows_perm M M'). Qed.
+Print Assumptions C17_shuffled_listing_rows_perm.
+
+(* --- A3, negative: make_block_solver hands the USER listing to adapter::block_matrix
+   (make_block_solver.hpp:53-60), whose merge assumes sorted rows: two listings of one matrix give
+   two different block matrices (entry a of scalar column 0 lands in block column 1).  Replayed on the
+   implementation by tools/props/C17.py (kinds mbs_*; finding C17-make_block_solver-unsorted-rows). --- *)
+Theorem C17_block_solver_entry_order_dependent_refuted (S : Scalar) (a c d : S) :
+  rows_perm (bs_shuffled a c d) (bs_sorted a c d) /\ distinct_cols (bs_shuffled a c d) /\
+  block_solver_entry 2 (fun G => G) (crs_view (bs_sorted a c d))
+    = mkG 2 [[(0, [[a; s0]; [s0; d]]); (1, [[s0; c]; [s0; s0]])]]%nat /\
+  block_solver_entry 2 (fun G => G) (crs_view (bs_shuffled a c d))
+    = mkG 2 [[(0, [[s0; s0]; [s0; d]]); (1, [[a; c]; [s0; s0]])]]%nat.
+Proof. exact (block_solver_entry_order_dependent_refuted a c d). Qed.
+Print Assumptions C17_block_solver_entry_order_dependent_refuted.
+
+(* --- A1, zero copy: the view is a borrow in the ownership model of C10 (Own.v; NewView =
+   adapter::zero_copy).  Creating it allocates nothing; no later sequence of operations on any object
+   frees the user's arrays or frees anything twice; at the end nothing has leaked. --- *)
+Theorem C17_zero_copy_view_is_borrow (ops ops' : list Own.op) (k u : nat) :
+  Own.find k (Own.run ops) = None ->
+  let w  := Own.run ops in
+  let w1 := Own.step w (Own.NewView k u) in
+  let w2 := fold_left Own.step ops' w1 in
+  Own.find k w1 = Some (Own.mkObj false (Some (Own.Usr u))) /\
+  Own.heap w1 = Own.heap w /\ Own.next w1 = Own.next w /\
+  Own.ufree w2 = 0 /\ Own.dfree w2 = 0 /\
+  Own.leaks (Own.destroy_all w2) = 0 /\ Own.ufree (Own.destroy_all w2) = 0 /\
+  Own.heap (Own.step w1 (Own.Destroy k)) = Own.heap w /\ Own.ufree (Own.step w1 (Own.Destroy k)) = 0.
+Proof. exact (zero_copy_view_is_borrow ops ops' k u). Qed.
+Print Assumptions C17_zero_copy_view_is_borrow.
+
+(* non-vacuity: a run with a view, a deep copy of it, moves and destruction in the "wrong" order *)
+Example C17_zero_copy_borrow_nonvacuous :
+  let ops' := [Own.CopyCtor 2 1; Own.MoveCtor 3 1; Own.CopyAssign 1 2; Own.Destroy 3; Own.Destroy 1] in
+  let w2 := fold_left Own.step ops' (Own.step (Own.run [Own.NewOwn 0]) (Own.NewView 1 7)) in
+  Own.find 1 (Own.run [Own.NewOwn 0]) = None /\ Own.ufree w2 = 0 /\ Own.leaks (Own.destroy_all w2) = 0 /\
+  Own.leaks w2 = 2.
+Proof. vm_compute. repeat split. Qed.
